@@ -1,6 +1,54 @@
-/- C05 — placeholder; theorems follow -/
-import SC.Buffer
+/-
+C05 — buffered mode defers writes to the outermost exit, where the file receives the
+buffered content.  (Transparency — every result equals the unbuffered result — is tied by the
+twin oracle and the correspondence; see MANIFEST.)
+-/
+import SC.Lemmas.Buffer
+import SC.Lemmas.BufSize
 namespace SC.Props
-open SC
-theorem C05_placeholder : True := trivial
+open SC SC.B
+
+/-- C05, deferral: a save performed while the object is buffered (any nesting of `obj.buffered` /
+`buffer_backend()`) changes neither content nor metadata of ANY file — unless the buffer size
+exceeds the capacity afterwards, in which case the result is exactly that of the forced flush. -/
+theorem C05_buffered_save_defers (s : B.State) (oi : Nat) (o : B.Obj) (ho : s.objs[oi]? = some o)
+    (hb : s.isBuffered o = true) :
+    (save s oi).1.stores = s.stores ∧ (save s oi).1.metas = s.metas ∨
+    ∃ s1 : B.State, s1.stores = s.stores ∧ s1.metas = s.metas ∧ s1.size > s1.capacity ∧
+      save s oi = flushBuffer s1 true :=
+  save_buffered_defers s oi o ho hb
+
+/-- C05, the flush at the outermost exit, shared-memory strategy: the file receives exactly the
+buffered data and the flush does not raise (no outside change). -/
+theorem C05_exit_writes_buffered_memory (s : B.State) (oi : Nat) (o : B.Obj) (force : Bool) (e : B.Entry)
+    (hb : (!(s.isBuffered o) || force) = true) (he : s.entry o.res = some e)
+    (hm : e.modified = true) (hc : e.fmeta = s.stat o.res) :
+    (flushMem s oi o force).2 = none ∧
+    (flushMem s oi o force).1.store o.res = some (s.cellData e.cell).toBase :=
+  flushMem_writes_buffered s oi o force e hb he hm hc
+
+/-- C05, the flush at the outermost exit, serialized strategy: the file receives the buffered
+contents (merged into the flushing object) and the entry leaves the buffer. -/
+theorem C05_exit_writes_buffered_serialized (s : B.State) (oi : Nat) (o : B.Obj) (force : Bool)
+    (e : B.Entry) (hb : (!(s.isBuffered o) || force) = true) (he : s.entry o.res = some e)
+    (hm : Tr.same e.contents e.hash = false) (hc : e.fmeta = s.stat o.res)
+    (hmerge : (mergeInto s oi o e.contents).2 = none) :
+    (flushSer s oi o force).2 = none ∧
+    (flushSer s oi o force).1.store o.res = some ((mergeInto s oi o e.contents).1.root o).toBase ∧
+    (flushSer s oi o force).1.entry o.res = none :=
+  flushSer_writes s oi o force e hb he hm hc hmerge
+
+/-- non-vacuity and the whole scenario on the machine (shared memory, list): writes inside nested
+contexts of both kinds leave the file missing; the outermost exit writes the final content. -/
+example :
+    let fam : Fam := ⟨[.requireStringKey, .jsonFormat], [.requireStringKey, .jsonFormat]⟩
+    let s1 := run (B.State.init fam .sharedMemory [])
+      [.openObj false 0 none, .enterCls none, .enterObj 0, .call (.root 0) (.lAppend (.leaf (.int 1))),
+       .call (.root 0) (.lReset (.list () [.leaf (.int 9)])), .call (.root 0) (.lAppend (.leaf (.int 2))), .exitObj 0]
+    let s2 := step s1 .exitCls
+    (s1.store 0).isNone = true ∧
+    (match s2.store 0 with | some d => Tr.same d (.list () [.leaf (.int 9), .leaf (.int 2)] : J) | none => false) = true ∧
+    s2.entries.length = 0 := by
+  decide
+
 end SC.Props
